@@ -341,8 +341,56 @@ func rewriteStmt(s ast.Stmt) []ast.Stmt {
 		}
 		return append(g, v)
 	case *ast.SelectStmt:
-		unsupported = append(unsupported, pos(v)+": select statement")
-		return []ast.Stmt{v}
+		// select { case v := <-a: A; case b <- x: B; default: D }  ->
+		// switch vrt.Select(true, vrt.SelCase{false, a}, vrt.SelCase{true, b}) { case 0: v := <-a; A; case 1: b <- x; vrt.AfterSend(b); B; default: D }
+		hasDefault := false
+		var args []ast.Expr
+		var clauses []ast.Stmt
+		idx := 0
+		for _, cl := range v.Body.List {
+			cc := cl.(*ast.CommClause)
+			body := rewriteList(cc.Body)
+			if cc.Comm == nil {
+				hasDefault = true
+				clauses = append(clauses, &ast.CaseClause{Body: body})
+				continue
+			}
+			var ch ast.Expr
+			send := "false"
+			pre := []ast.Stmt{cc.Comm}
+			switch comm := cc.Comm.(type) {
+			case *ast.SendStmt:
+				ch, send = comm.Chan, "true"
+				pre = append(pre, call("AfterSend", comm.Chan))
+			case *ast.ExprStmt:
+				if chs := recvChans(comm.X); len(chs) == 1 {
+					ch = chs[0]
+				}
+			case *ast.AssignStmt:
+				if len(comm.Rhs) == 1 {
+					if chs := recvChans(comm.Rhs[0]); len(chs) == 1 {
+						ch = chs[0]
+					}
+				}
+			}
+			if ch == nil {
+				unsupported = append(unsupported, pos(cc)+": select clause that is neither a send nor a single receive")
+				return []ast.Stmt{v}
+			}
+			args = append(args, &ast.CompositeLit{Type: &ast.SelectorExpr{X: ast.NewIdent("vrt"), Sel: ast.NewIdent("SelCase")},
+				Elts: []ast.Expr{&ast.KeyValueExpr{Key: ast.NewIdent("Send"), Value: ast.NewIdent(send)}, &ast.KeyValueExpr{Key: ast.NewIdent("Ch"), Value: ch}}})
+			clauses = append(clauses, &ast.CaseClause{List: []ast.Expr{&ast.BasicLit{Kind: token.INT, Value: fmt.Sprint(idx)}}, Body: append(pre, body...)})
+			idx++
+		}
+		if !hasDefault {
+			// Select never returns -1 without a default clause
+		}
+		hd := "false"
+		if hasDefault {
+			hd = "true"
+		}
+		sel := &ast.CallExpr{Fun: &ast.SelectorExpr{X: ast.NewIdent("vrt"), Sel: ast.NewIdent("Select")}, Args: append([]ast.Expr{ast.NewIdent(hd)}, args...)}
+		return []ast.Stmt{&ast.SwitchStmt{Tag: sel, Body: &ast.BlockStmt{List: clauses}}}
 	}
 	unsupported = append(unsupported, pos(s)+fmt.Sprintf(": statement of type %T", s))
 	return []ast.Stmt{s}
